@@ -360,6 +360,8 @@ def clobber_cases(U, specs):
     for o in names:
         for n in (names if U.thorough else names[:3]):
             out.append((by[o], "updated", by[n], "string", "abs"))
+    for o in names:
+        out.append((by[o], "emptied", by[names[(names.index(o) + 1) % len(names)]], "string", "abs"))
     for o, n in (("A", "B"), ("B", "A"), ("T", "A"), ("A", "T"), ("C", "C"), ("A", "A")):
         out.append((by[o], "plain", by[n], "string", "relative"))
         out.append((by[o], "plain", by[n], "file", "odd name"))
@@ -379,6 +381,9 @@ def make_old(spec, post, path, workdir):
             db.update([extra], make_backup=False, merge_strategy="create_unique", **kw)
         victim = spec.exp_ids[0]
         db.delete([victim], make_backup=False)
+    if post == "emptied":
+        # every feature deleted: tables, directives, dialect and id counters remain, zero feature rows
+        db.delete(list(db.all_features()), make_backup=False)
     close(db)
 
 
@@ -494,7 +499,7 @@ def unit_clobber(U):
         shutil.rmtree(work, ignore_errors=True)
     scope = ("all ordered pairs over %d inputs (5 GFF3 incl. shared ids / duplicates table / counters / directives, 2 GTF, "
              "%d seeded-random GFF3) x data forms string/file/Feature iterator%s; old databases plain, with an update+delete "
-             "history, or held open by a reader; absolute, relative and non-ASCII paths"
+             "history, emptied by delete(), or held open by a reader; absolute, relative and non-ASCII paths"
              % (len(specs), len(specs) - 7, "" if U.thorough else " (file/iterator forms on a third of the pairs)"))
     U.bounded_result("C19.bounded.noforce_untouched",
                      "create_db(new, path_of_old, force=False) raises and the old file's bytes, every table row (read-only raw "
